@@ -157,3 +157,17 @@ package codegen
 //@   at return assert [matrix] is(typ.Inner, ir.MatrixType) && typ.Inner.(ir.MatrixType).Rows >= 2 && typ.Inner.(ir.MatrixType).Rows <= 4 ==> result == (uint32(typ.Inner.(ir.MatrixType).Columns) - 1) * ite(typ.Inner.(ir.MatrixType).Rows == ir.Vec2, uint32(2), uint32(4)) * uint32(typ.Inner.(ir.MatrixType).Scalar.Width) + uint32(typ.Inner.(ir.MatrixType).Rows) * uint32(typ.Inner.(ir.MatrixType).Scalar.Width)
 //@   at return assert [array] is(typ.Inner, ir.ArrayType) && typ.Inner.(ir.ArrayType).Size.Constant != nil && *typ.Inner.(ir.ArrayType).Size.Constant != 0 && typ.Inner.(ir.ArrayType).Stride != 0 ==> result == (*typ.Inner.(ir.ArrayType).Size.Constant - 1) * typ.Inner.(ir.ArrayType).Stride + hlslTypeSize(w, typ.Inner.(ir.ArrayType).Base)
 //@   at return assert [array-runtime] is(typ.Inner, ir.ArrayType) && typ.Inner.(ir.ArrayType).Size.Constant == nil ==> result == hlslTypeSize(w, typ.Inner.(ir.ArrayType).Base)
+
+// ---- RestrictIndexing clamp bound (C15, C03) ---------------------------------------------------
+//
+// A dynamic index is clamped to min(index, bound): the bound must be the last
+// valid index of the indexed object - array length-1, vector size-1, and for a
+// matrix (indexed by column) columns-1.
+//
+//@ func (*Writer).getAccessMaxIndex
+//@   mode bv
+//@   tags C15 C03
+//@   at return assert [array] result1 && is(inner, ir.ArrayType) ==> inner.(ir.ArrayType).Size.Constant != nil && *inner.(ir.ArrayType).Size.Constant > 0 && result0 == *inner.(ir.ArrayType).Size.Constant - 1
+//@   at return assert [vector] result1 && is(inner, ir.VectorType) ==> inner.(ir.VectorType).Size > 0 && result0 == uint32(inner.(ir.VectorType).Size) - 1
+//@   at return assert [matrix] result1 && is(inner, ir.MatrixType) ==> inner.(ir.MatrixType).Columns > 0 && result0 == uint32(inner.(ir.MatrixType).Columns) - 1
+//@   at return assert [indexable-only] result1 ==> is(inner, ir.ArrayType) || is(inner, ir.VectorType) || is(inner, ir.MatrixType)
